@@ -6,7 +6,7 @@ From Coq Require Import String.
 From Coq Require Import List Bool Arith NArith.
 Import ListNotations.
 Require Import Kinds PyStr Line Matcher Ast Builder Compiler Automaton Pipeline Stream TokenFormatter Json
-               Stub Table Dialects.
+               Stub Table Dialects Regex RefSem.
 
 Definition jget (k : string) (j : json) : option json :=
   match j with
@@ -284,5 +284,33 @@ Definition dispatch (fname : str) (args : list json) : json :=
       | _, _ => j_err "stub_match_token: kinds"
       end
     | _ => j_err "stub_match_token: arguments"
+    end
+  else if str_eqb fname (s2l "ref_accepts") then
+    (* the reference semantics of the grammar (RefSem.v) on a kind sequence without EOF *)
+    match args with
+    | [JArr ks] =>
+      match map_opt d_kind ks with
+      | Some w => JBool (accepts_ref w)
+      | None => j_err "ref_accepts: kinds"
+      end
+    | _ => j_err "ref_accepts: arguments"
+    end
+  else if str_eqb fname (s2l "valid_events") then
+    (* builder events [["S", rule]|["E", rule]|["B", _, kind]] form a derivation of the grammar *)
+    match args with
+    | [JArr es] =>
+      match map_opt (fun e => match e with
+                              | JArr [JStr t; JNum r] =>
+                                match nth_error all_rules r with
+                                | Some x => if str_eqb t (s2l "S") then Some (AS x) else if str_eqb t (s2l "E") then Some (AE x) else None
+                                | None => None
+                                end
+                              | JArr [JStr t; _; k] => if str_eqb t (s2l "B") then option_map AB (d_kind k) else None
+                              | _ => None
+                              end) es with
+      | Some l => JBool (valid_events l)
+      | None => j_err "valid_events: events"
+      end
+    | _ => j_err "valid_events: arguments"
     end
   else j_err "unknown function".
